@@ -39,6 +39,8 @@ pub struct E1Run {
     /// short-lived threads created (and joined) before the clients, so that the callers' thread ids,
     /// thread-local slots and stacks are not always the first ones of the process
     pub tid_offset: u8,
+    /// E5: the run's process is traced and its callers are scheduled between machine instructions
+    pub ptrace: Option<crate::e5::PtracePlan>,
 }
 
 #[derive(Clone, Debug, PartialEq)]
@@ -142,6 +144,7 @@ impl E1Run {
             "ambient": self.ambient.to_json(),
             "alloc_yield": self.alloc_yield,
             "tid_offset": self.tid_offset,
+            "ptrace": self.ptrace.as_ref().map(|p| p.to_json()),
             "schedule_rle": self.schedule.as_ref().map(|s| rle(s)),
         })
     }
@@ -183,6 +186,10 @@ impl E1Run {
             shape: v.get("shape").and_then(|s| s.as_str()).unwrap_or("replay").to_string(),
             alloc_yield: v.get("alloc_yield").and_then(|s| s.as_bool()).unwrap_or(false),
             tid_offset: v.get("tid_offset").and_then(|s| s.as_u64()).unwrap_or(0) as u8,
+            ptrace: match v.get("ptrace") {
+                Some(p) if !p.is_null() => Some(crate::e5::PtracePlan::from_json(p)?),
+                _ => None,
+            },
         })
     }
     pub fn total_ops(&self) -> usize {
@@ -687,7 +694,7 @@ pub fn gen_run(seed: u64, params: &GenParams, corpus: &Corpus, oracle: &mut Orac
         }
     };
     let tid_offset = if rng.chance(1, 2) { 0 } else { rng.range(1, 24) as u8 };
-    E1Run { seed, threads, stack_kb, strategy, fault, ambient, schedule: None, shape: shapes.join("+"), alloc_yield, tid_offset }
+    E1Run { seed, threads, stack_kb, strategy, fault, ambient, schedule: None, shape: shapes.join("+"), alloc_yield, tid_offset, ptrace: None }
 }
 
 // ---------------------------------------------------------------------------------------------
@@ -968,8 +975,10 @@ fn child_body(run: &E1Run, isos: &[Vec<Arc<Iso>>], raw_fd: i32) -> RunReport {
     run.ambient.apply();
     let trace_fd = oracle::memfd("run-trace");
     let tracing = trace_to(trace_fd);
-    for _ in 0..run.tid_offset {
-        let _ = std::thread::spawn(|| {}).join();
+    if run.ptrace.is_none() {
+        for _ in 0..run.tid_offset {
+            let _ = std::thread::spawn(|| {}).join();
+        }
     }
     let pool = Arc::new(build_pool(run));
     let chooser = match &run.schedule {
@@ -985,7 +994,7 @@ fn child_body(run: &E1Run, isos: &[Vec<Arc<Iso>>], raw_fd: i32) -> RunReport {
         watchdog: Duration::from_secs(10),
     };
     let pool_dyn: Arc<dyn Pool + Send + Sync> = pool.clone();
-    let out = sched::execute(&spec, chooser, pool_dyn, &|_| Vec::new());
+    let out = if run.ptrace.is_some() { crate::e5::execute_free(&spec, pool_dyn) } else { sched::execute(&spec, chooser, pool_dyn, &|_| Vec::new()) };
     let _ = std::io::stdout().flush();
     let raw = String::from_utf8_lossy(&oracle::read_fd_all(raw_fd)).into_owned();
     let mut rep = RunReport::default();
@@ -1089,6 +1098,17 @@ fn child_body(run: &E1Run, isos: &[Vec<Arc<Iso>>], raw_fd: i32) -> RunReport {
 
 /// Execute `run` in a child forked from this (pristine) process and collect its report.
 pub fn exec_in_child(run: &E1Run, isos: &[Vec<Arc<Iso>>]) -> RunReport {
+    exec_in_child_traced(run, isos).0
+}
+
+/// As `exec_in_child`; for a run with a ptrace plan also returns what the tracer saw.
+pub fn exec_in_child_traced(run: &E1Run, isos: &[Vec<Arc<Iso>>]) -> (RunReport, Option<crate::e5::TraceInfo>) {
+    let mut tinfo: Option<crate::e5::TraceInfo> = None;
+    let rep = exec_in_child_inner(run, isos, &mut tinfo);
+    (rep, tinfo)
+}
+
+fn exec_in_child_inner(run: &E1Run, isos: &[Vec<Arc<Iso>>], tinfo: &mut Option<crate::e5::TraceInfo>) -> RunReport {
     let mut fds = [0i32; 2];
     assert!(unsafe { libc::pipe2(fds.as_mut_ptr(), libc::O_CLOEXEC) } == 0);
     let (rfd, wfd) = (fds[0], fds[1]);
@@ -1097,6 +1117,10 @@ pub fn exec_in_child(run: &E1Run, isos: &[Vec<Arc<Iso>>]) -> RunReport {
     if pid == 0 {
         unsafe {
             libc::close(rfd);
+            if run.ptrace.is_some() {
+                libc::ptrace(libc::PTRACE_TRACEME, 0, 0, 0);
+                libc::raise(libc::SIGSTOP);
+            }
             let cap = oracle::memfd("run-raw");
             let cap_err = oracle::memfd("run-raw-err");
             libc::dup2(cap, 1);
@@ -1128,11 +1152,38 @@ pub fn exec_in_child(run: &E1Run, isos: &[Vec<Arc<Iso>>]) -> RunReport {
         }
     }
     unsafe { libc::close(wfd) };
+    if let Some(plan) = &run.ptrace {
+        let (info, ok) = crate::e5::trace_child(pid, plan, run.threads.len());
+        let verdict = (info.deadlock.clone(), info.died.clone(), info.timeout, info.setup_error.clone());
+        *tinfo = Some(info);
+        if !ok {
+            unsafe { libc::close(rfd) };
+            let mut status = 0i32;
+            unsafe { libc::waitpid(pid, &mut status, libc::__WALL) };
+            let mut rep = RunReport::default();
+            match verdict {
+                (Some(d), _, _, _) => {
+                    for (p, c) in [("C17", "deadlock-between-concurrent-calls"), ("C01", "hang")] {
+                        rep.violations.push(Violation { property: p.into(), class: c.into(), thread: 0, op_idx: 0, op: None, expected: "every call returns, as it does in isolation".into(), got: d.clone(), needs: "history-or-schedule".into() });
+                    }
+                }
+                (_, Some(how), _, _) => {
+                    rep.crashed = Some(how.clone());
+                    for p in ["C01", "C17"] {
+                        rep.violations.push(Violation { property: p.into(), class: "process-died-during-run".into(), thread: 0, op_idx: 0, op: None, expected: "every call returns".into(), got: how.clone(), needs: "history-or-schedule".into() });
+                    }
+                }
+                (_, _, true, _) => rep.stalled = Some("traced run did not finish within 30 s".into()),
+                (_, _, _, e) => rep.stalled = Some(format!("tracer set-up failed: {}", e.unwrap_or_default())),
+            }
+            return rep;
+        }
+    }
     let mut buf = Vec::new();
     let mut timed_out = false;
     loop {
         let mut pfd = libc::pollfd { fd: rfd, events: libc::POLLIN, revents: 0 };
-        let r = unsafe { libc::poll(&mut pfd, 1, 180_000) };
+        let r = unsafe { libc::poll(&mut pfd, 1, if run.ptrace.is_some() { 20_000 } else { 180_000 }) };
         if r == 0 {
             timed_out = true;
             unsafe { libc::kill(pid, libc::SIGKILL) };
@@ -1159,7 +1210,7 @@ pub fn exec_in_child(run: &E1Run, isos: &[Vec<Arc<Iso>>]) -> RunReport {
                 // the child's own supervisor reports stalls and deadlocks; a child that merely did not
                 // finish in time (an overloaded machine) says nothing about the code
                 let mut rep = RunReport::default();
-                rep.stalled = Some("run process gave no report within 180 s".to_string());
+                rep.stalled = Some(if run.ptrace.is_some() { "released run process gave no report within 20 s".to_string() } else { "run process gave no report within 180 s".to_string() });
                 return rep;
             }
             let how = if timed_out {
